@@ -554,34 +554,38 @@ NopBytes(kind) == CASE kind = "1" -> <<144>> [] kind = "4" -> <<31, 32, 3, 213>>
 \* grow: bytes a rewrite appends to the first interval between split and join;
 \* late: a rewrite annotates the last interval (a table entry appears on an
 \* interval that is not the destination of the join)
-V(op, mod, fmt, tab, al, nop, grow, late) ==
-  [op |-> op, mod |-> mod, fmt |-> fmt, tab |-> tab, al |-> al, nop |-> nop, grow |-> grow, late |-> late]
+\* ord: order in which the annotation entries are INSERTED into the offset tables
+\* (aux data and custom tables are unordered containers): ascending, descending
+\* or a seeded shuffle of the displacements
+V(op, mod, fmt, tab, al, nop, grow, late, ord) ==
+  [op |-> op, mod |-> mod, fmt |-> fmt, tab |-> tab, al |-> al, nop |-> nop, grow |-> grow, late |-> late,
+   ord |-> ord]
 ApplyVariants ==
-  << V("apply", "x64", "elf", "default", "aux", "no", 0, 0), V("apply", "x64", "pe", "default", "aux", "no", 0, 0),
-     V("apply", "ia32", "pe", "default", "aux", "no", 0, 0), V("apply", "arm64", "elf", "default", "aux", "no", 0, 0),
-     V("apply", "mips32", "elf", "default", "aux", "no", 0, 0) >>
+  << V("apply", "x64", "elf", "default", "aux", "no", 0, 0, "desc"), V("apply", "x64", "pe", "default", "aux", "no", 0, 0, "shuf"),
+     V("apply", "ia32", "pe", "default", "aux", "no", 0, 0, "asc"), V("apply", "arm64", "elf", "default", "aux", "no", 0, 0, "desc"),
+     V("apply", "mips32", "elf", "default", "aux", "no", 0, 0, "shuf") >>
 SjVariants ==
   CASE VariantSet = "geo" ->
-         << V("sj", "x64", "elf", "default", "aux", "no", 0, 0),
-            V("sj", "none", "elf", "custom", "arg", "e4n1", 0, 1),
-            V("sj", "arm64", "elf", "custom", "none", "no", 0, 0) >>
+         << V("sj", "x64", "elf", "default", "aux", "no", 0, 0, "desc"),
+            V("sj", "none", "elf", "custom", "arg", "e4n1", 0, 1, "shuf"),
+            V("sj", "arm64", "elf", "custom", "none", "no", 0, 0, "asc") >>
     [] VariantSet = "uninit" ->
-         << V("sj", "x64", "elf", "default", "aux", "no", 0, 0),     \* ABI nop of 1 byte
-            V("sj", "arm64", "elf", "custom", "arg", "no", 0, 0),     \* ABI nop of 4 bytes
-            V("sj", "none", "elf", "custom", "arg", "no", 0, 0) >>    \* no nop known
+         << V("sj", "x64", "elf", "default", "aux", "no", 0, 0, "desc"),    \* ABI nop of 1 byte
+            V("sj", "arm64", "elf", "custom", "arg", "no", 0, 0, "shuf"),     \* ABI nop of 4 bytes
+            V("sj", "none", "elf", "custom", "arg", "no", 0, 0, "asc") >>     \* no nop known
     [] VariantSet = "items" ->
-         << V("sj", "x64", "elf", "default", "none", "n1", 0, 1),
-            V("sj", "none", "elf", "custom", "arg", "n4", 0, 0),
-            V("sj", "arm64", "elf", "custom", "aux", "no", 0, 1),
-            V("sj", "x64", "elf", "default", "none", "n1", 0, 0) >>
+         << V("sj", "x64", "elf", "default", "none", "n1", 0, 1, "desc"),
+            V("sj", "none", "elf", "custom", "arg", "n4", 0, 0, "shuf"),
+            V("sj", "arm64", "elf", "custom", "aux", "no", 0, 1, "desc"),
+            V("sj", "x64", "elf", "default", "none", "n1", 0, 0, "asc") >>
     [] VariantSet = "align" ->
-         << V("sj", "x64", "elf", "default", "aux", "no", 0, 0),
-            V("sj", "arm64", "elf", "default", "arg", "no", 1, 0),
-            V("sj", "none", "elf", "custom", "arg", "n4", 2, 0),
-            V("sj", "none", "elf", "custom", "arg", "no", 0, 0),
-            V("sj", "x64", "elf", "custom", "aux", "e1", 3, 0),
-            V("sj", "mips32", "elf", "default", "aux", "e4n1", 1, 1),
-            V("sj", "x64", "pe", "default", "aux", "n1", 2, 0) >>
+         << V("sj", "x64", "elf", "default", "aux", "no", 0, 0, "asc"),
+            V("sj", "arm64", "elf", "default", "arg", "no", 1, 0, "asc"),
+            V("sj", "none", "elf", "custom", "arg", "n4", 2, 0, "asc"),
+            V("sj", "none", "elf", "custom", "arg", "no", 0, 0, "asc"),
+            V("sj", "x64", "elf", "custom", "aux", "e1", 3, 0, "asc"),
+            V("sj", "mips32", "elf", "default", "aux", "e4n1", 1, 1, "asc"),
+            V("sj", "x64", "pe", "default", "aux", "n1", 2, 0, "asc") >>
     [] OTHER -> <<>>
 
 \* Rotate = 0: every variant; otherwise Rotate of them, chosen by the layout
